@@ -91,6 +91,17 @@ def _ord_maxmin(it, st, args, ctx):
     ty = self_int_type(ctx)
     info = int_info(ty)
     if info is None:
+        # derive(Ord) on a newtype over an unsigned integer (CoinValue, BlockHeight): order of the wrapped integer
+        if isinstance(a, Agg) and isinstance(b, Agg) and len(a.fields) == 1 and len(b.fields) == 1 and \
+                isinstance(a.fields[0], z3.ExprRef) and z3.is_bv(a.fields[0]) and ty in ('CoinValue', 'BlockHeight'):
+            lt = z3.ULT(a.fields[0], b.fields[0])
+            pick_b = lt if ctx.callee.endswith('max') else z3.Not(lt)
+            # Ord::max returns the second argument on ties, Ord::min the first
+            if ctx.callee.endswith('max'):
+                pick_b = z3.ULE(a.fields[0], b.fields[0])
+            else:
+                pick_b = z3.ULT(b.fields[0], a.fields[0])
+            return Agg(a.ty, [z3.If(pick_b, b.fields[0], a.fields[0])])
         return NotImplemented
     lt = (a < b) if info[1] else z3.ULT(a, b)
     if ctx.callee.endswith('max'):
@@ -823,3 +834,24 @@ def _clamp(it, st, args, ctx):
         return NotImplemented
     lt = (lambda x, y: x < y) if info[1] else z3.ULT
     return _panic_fork(it, st, z3.Not(lt(hi, lo)), z3.If(lt(a, lo), lo, z3.If(lt(hi, a), hi, a)), 'assertion failed: min <= max', ctx)
+
+
+# ---------------------------------------------------------------------------
+# explicit panics (`assert!`, `panic!`, `unreachable!`): the path ends in a Panic outcome
+
+
+@summary(r'^(core::panicking::)?(panic|panic_fmt|panic_display|panic_str|panic_explicit|unreachable_display)(::<.*>)?$|'
+         r'^(core::panicking::)?assert_failed(::<.*>)?$|^std::rt::begin_panic(::<.*>)?$')
+def _explicit_panic(it, st, args, ctx):
+    msg = 'explicit panic'
+    try:
+        a0 = args[0]
+        if isinstance(a0, Ptr):
+            v = it.load(st, a0)
+            if isinstance(v, Opaque) and v.kind == 'Str':
+                msg = str(v.data[0])
+            elif isinstance(v, Agg) and all(z3.is_bv_value(simp(x)) for x in v.fields):
+                msg = bytes(simp(x).as_long() for x in v.fields).decode('utf-8', 'replace')
+    except Exception:
+        pass
+    return [(st, Panic(msg, ctx.fn.name if ctx.fn else ''))]
